@@ -4,16 +4,19 @@ corr  : the Lean model of the runtime (`_populate_self_namespace`/`_inherit_from
         compiled when first looked up, `TemplateNamespace.__getattr__` with its setattr memo, `_NSAttr` walking the
         chain at read time, `visitBlockTag`'s guard and its `__M_writer(<call> or '')` for buffered blocks, calls
         with content run in place, Python argument binding of bodies, defs and blocks, the `_Identifiers` block
-        checks incl. `_reject_named_blocks`) against the real mako:
+        checks incl. `_reject_named_blocks`, `<%include>` of further chains of the lookup rendered from a clean
+        context) against the real mako:
           corr.nsattrs - the regenerated table of Namespace attribute names against dir() of a live namespace
-          corr.render  - whole chains rendered through a real TemplateLookup, output tag sequence / exception kind
+          corr.render  - whole chains (a third of them including further chains) rendered through a real
+                         TemplateLookup, output tag sequence / exception kind
           corr.build   - the object graph left by the inherit phase (inherits links, self/local/next/parent per context)
           corr.attrs   - `getattr(ns_j, name)` / `ns_j.attr.name` sequences on the real namespace objects
                          (memo threaded through, and memo-free)
           corr.check   - compile outcome (and kind of the first CompileException) of random def/block/call trees
 oracle: oracle.render - expected tag sequence computed from the generator's ground truth by the rules of the
         property text (most-derived definition, base-most position, adjacent templates for next/parent, a block's
-        content once at its position whatever its buffered flag, Python signature binding through
+        content once at its position whatever its buffered flag, an included template rendered as a chain of its
+        own - parent/next absent at its ends whatever the includer inherits -, Python signature binding through
         inspect.Signature) - no Lean involved; oracle.check - CompileException expectations for duplicate and
         misplaced blocks; oracle.witnesses - a fixed corpus replayed on every run: the witnesses of the recorded
         findings and the regression cases of the repaired ones (F-C06-3, F-C06-4) and of two rule points
@@ -1651,7 +1654,7 @@ def run(ctx):
             if r != want:
                 ctx.disagree("corr.nsattrs", a, r, want)
     try:
-        n = 1300 if ctx.quick else 20000
+        n = 1300 if ctx.quick else 17000
         guarded("nsattrs", nsattrs_table)
         cases = guarded("render.plain", lambda: corr_and_oracle_render(ctx, impl, gen, n, "plain"))
         guarded("render.hazard", lambda: corr_and_oracle_render(ctx, impl, gen, n // 6, "hazard", hazards=True))
